@@ -27,3 +27,28 @@ Proof.
   - vm_compute. repeat split.
 Qed.
 Print Assumptions C02_observer_refuted.
+
+(* Several stages: "every component ends in its rule-given state or shut down", with the rule evaluated on the
+   exit reasons alone (spec), is false of the code — hence the single-stage hypothesis of C02_failure_case.
+   Components 0..3 are in stage 0 (1 and 2 are replicas), component 4 (stage 1) aggregates 1 and 2.  0 fails;
+   1 WOULD fail by its own exit reason but is stopped (shut down) when the failure of 0 is handled, 2 has
+   already finished; 3 keeps stage 0 alive.  The next scheduler pass launches 4 (not all of its replicated
+   inputs are shut down, none is failed) and 4 finishes, although spec(4) = shut-down (its producer 1 has the
+   rule-given state failed).  Every actual final state is still shut-down or the component's own outcome
+   (C02_final_states_any), and the launch respected the producers' actual states (C01_launch_guard): this is
+   a limit of the yardstick, not a defect; the witness is replayed on the real controller by harness/c01.py. *)
+Definition msC st ag rp ps : comp :=
+  {| stage := st; is_repeat := false; is_aggregate := ag; is_replica := rp; preds := ps; cshutdown_on := []; restart_on := []; max_r := 0 |}.
+Definition msW : list comp := [ msC 0 false false []; msC 0 false true []; msC 0 false true []; msC 0 false false []; msC 1 true false [1; 2] ].
+Definition msOut (c n : nat) : reason := match c with 0 => UnknownIssue | 1 => UnknownIssue | _ => Success end.
+
+Theorem C02_multistage_spec_refuted :
+  map (spec msW msOut) [0; 1; 2; 3; 4] = [Failed; Failed; Finished; Finished; Shutdown] /\
+  match run msW true msOut state0
+          [Start; Tick; Exit 2; PM 2; Fin 2; Exit 0; PM 0; Fin 0; Exit 1; Fin 1; Tick; Exit 4; PM 4; Fin 4; Exit 3; Fin 3; Tick] with
+  | Some s => map (fun c => cstate (dy s c)) [0; 1; 2; 3; 4] = [CFin Failed; CFin Shutdown; CFin Finished; CFin Shutdown; CFin Finished]
+              /\ verdict s = Some VFailed /\ running s = false
+  | None => False
+  end.
+Proof. split; [vm_compute; reflexivity|vm_compute; repeat split]. Qed.
+Print Assumptions C02_multistage_spec_refuted.
